@@ -78,6 +78,8 @@ pub enum Step {
     StashWaker,
     /// call every stashed waker: stale wake-ups arriving while this body is executing
     FireStashed,
+    /// keep the body busy for a few microseconds (widens the window after a wake that landed during the poll)
+    Pause,
 }
 
 #[derive(Clone, Debug)]
@@ -109,6 +111,8 @@ pub enum TAct {
     HandResumer(OpId),
     /// Drop this thread's owner of the mortal object
     ReleaseMortal,
+    /// Drop this thread's owner of the mortal object while the thread is unwinding from a panic (caught by the harness)
+    PanicRelease,
     /// Create pipe p (pipe_in or pipe) on its object
     PipeCreate(usize),
     /// Read up to n outputs from pipe p's stream (usize::MAX: until it ends)
@@ -255,7 +259,7 @@ impl Program {
             h = hcomb(h, op.kind.code() * 1000 + op.disp.code() * 10 + op.obj as u64);
             for s in &op.body {
                 h = hcomb(h, match s { Step::Touch => 1, Step::Yield => 2, Step::Gate(g) => 100 + *g as u64, Step::Nest(o) => 1000 + *o as u64,
-                                       Step::Hold(x) => 50 + *x as u64, Step::Panic => 3, Step::DropMortal => 4, Step::WakeOnly => 5, Step::StashWaker => 6, Step::FireStashed => 7 });
+                                       Step::Hold(x) => 50 + *x as u64, Step::Panic => 3, Step::DropMortal => 4, Step::WakeOnly => 5, Step::StashWaker => 6, Step::FireStashed => 7, Step::Pause => 8 });
             }
         }
         for t in &self.threads {
@@ -323,7 +327,7 @@ impl Program {
 fn tact_code(a: &TAct) -> u64 {
     match a {
         TAct::Op(o) => 10_000 + *o as u64, TAct::Join(o) => 20_000 + *o as u64, TAct::DropHeld(o) => 30_000 + *o as u64,
-        TAct::Resume(o, b) => 40_000 + *o as u64 * 2 + *b as u64, TAct::HandResumer(o) => 50_000 + *o as u64, TAct::ReleaseMortal => 7,
+        TAct::Resume(o, b) => 40_000 + *o as u64 * 2 + *b as u64, TAct::HandResumer(o) => 50_000 + *o as u64, TAct::ReleaseMortal => 7, TAct::PanicRelease => 8,
         TAct::PipeCreate(p) => 60_000 + *p as u64, TAct::Consume(p, n) => 70_000 + (*p as u64) * 100 + (*n as u64 % 97), TAct::DropStream(p) => 80_000 + *p as u64, TAct::Push(p) => 90_000 + *p as u64, TAct::Attempt(k, o) => 95_000 + *k as u64 * 10 + *o as u64, TAct::AttemptJoin(o) => 96_000 + *o as u64, TAct::Stash(o) => 97_000 + *o as u64, TAct::WaitStart(o) => 98_000 + *o as u64, TAct::Checkpoint => 99_000,
     }
 }
